@@ -17,7 +17,7 @@ RULE = ("a schedule = N assignments to an allow_refs parameter (coroutine functi
         "yielding once per future of a list of <=2 / plain value) interleaved with the resolution of the pending futures in any "
         "order consistent with causality, with or without letting the loop run between consecutive assignments; all schedules "
         "for N<=3 are enumerated completely (param variant), N=4 and the rx variant (root.rx.pipe(async fn) with the root "
-        "updated <=4 times, every completion order) are sampled by Hypothesis; oracle = once everything completed the value is "
+        "updated <=4 times - optionally returning to earlier values (A, B, A), then judged by value -, every completion order) are sampled by Hypothesis; oracle = once everything completed the value is "
         "the result of the most recent assignment, no result of assignment i is seen after any result of assignment j>i, "
         "a plain value stays until the next assignment, and no task is left pending. Non-trivial = the completion order differs "
         "from the assignment order, or a plain assignment lands while an awaitable is pending; distinct = case hash.")
@@ -29,7 +29,8 @@ SIZES = {"quick": 600, "thorough": 6000}
 EXHAUSTIVE_NOTE = ("param variant: every schedule of N assignments (coroutine / 1- or 2-yield async generator / plain value / "
                    "synchronous reference) x every causally possible completion order x drain / no drain between consecutive "
                    "assignments; thorough tier: all N<=3; quick tier: all N<=2 and N=3 except the kind tuples with two 2-yield "
-                   "generators or (without any plain/synchronous assignment) two 1-yield generators")
+                   "generators or (without any plain/synchronous assignment) two 1-yield generators; plus all 32 configurations "
+                   "of the linked-object scenario (keyword order x override kind x 1-2 source changes x completion order x drains)")
 
 KINDS = ["coro", "agen1", "agen2", "plain", "sref", "bad"]
 # sref = a synchronous reference (a Parameter of another object); bad = an assignment that is rejected (wrong type) and
@@ -77,6 +78,14 @@ def enumerate_cases(tier):
                     if not drain and n == 1:
                         continue
                     yield {"variant": "param", "kinds": list(kinds), "steps": sched, "drain_after_assign": drain}
+    # --- one source feeding a synchronous and an asynchronous link of one object (complete) ---------------------
+    for kw in (["y", "x"], ["x", "y"]):
+        for ov in ("plain", "coro"):
+            for bumps in (1, 2):
+                for order in ("fifo", "lifo"):
+                    for db in (True, False):
+                        yield {"variant": "linked", "kw_order": kw, "override": ov, "bumps": bumps, "resolve_order": order,
+                               "drain_between": db, "kinds": [], "steps": []}
 
 
 @st.composite
@@ -107,7 +116,14 @@ def _case(draw):
         else:
             seq.append(["resolve", c[1], nextf[c[1]]])
             nextf[c[1]] += 1
-    return {"variant": variant, "kinds": kinds, "steps": seq, "drain_after_assign": draw(st.booleans())}
+    case = {"variant": variant, "kinds": kinds, "steps": seq, "drain_after_assign": draw(st.booleans())}
+    if variant == "rx" and draw(st.booleans()):
+        # the root may return to a value it had before (A, B, A, ...): consecutive updates differ, results are judged by value
+        vals = []
+        for _ in range(n):
+            vals.append(draw(st.sampled_from([v for v in (0, 1, 2) if not vals or v != vals[-1]])))
+        case["root_vals"] = vals
+    return case
 
 
 def strategy(tier):
@@ -219,6 +235,59 @@ async def _run_param(case, res):
     return pending_when_plain
 
 
+async def _run_linked(case, res):
+    """One source feeds a synchronously linked parameter y and an asynchronously linked parameter x of the same object; a
+    watcher of y assigns x (a plain value, which ends the link, or a new coroutine) while the dependency change is being
+    synchronised.  That assignment is the latest one."""
+    loop = asyncio.get_running_loop()
+    futs = []
+
+    async def afn(v):
+        f = loop.create_future()
+        futs.append((f, f"link{len(futs)}"))
+        return await f
+
+    S = type("S", (param.Parameterized,), {"v": param.Number(default=0)})
+    T = type("T", (param.Parameterized,), {"y": param.Parameter(default=None, allow_refs=True),
+                                           "x": param.Parameter(default="init", allow_refs=True)})
+    src = S()
+    refs = {"y": param.bind(lambda v: v, src.param.v), "x": param.bind(afn, src.param.v)}
+    t = T(**{k: refs[k] for k in case["kw_order"]})
+    ofuts = []
+
+    def override(_event):
+        if case["override"] == "plain":
+            t.x = f"fallback{len(ofuts)}"
+            ofuts.append(None)
+        else:
+            f = loop.create_future()
+            name = f"over{len(ofuts)}"
+            ofuts.append((f, name))
+
+            async def again():
+                return await f
+            t.x = again
+    t.param.watch(override, "y")
+    await _drain()
+    for b in range(case["bumps"]):
+        src.v = b + 1
+        if case["drain_between"]:
+            await _drain()
+    pend = list(futs) + [o for o in ofuts if o is not None]
+    if case["resolve_order"] == "lifo":
+        pend.reverse()
+    for f, name in pend:
+        if not f.done():
+            f.set_result(name)
+        await _drain()
+    await _drain(8)
+    want = f"fallback{len(ofuts) - 1}" if case["override"] == "plain" else f"over{len(ofuts) - 1}"
+    if t.x != want:
+        res.fail("C10.latest_assignment_lost", f"linked object, {case!r}: the watcher of the synchronously linked parameter assigned x "
+                                               f"last ({want!r}) but the final value is {t.x!r}")
+    return case["override"] == "plain"
+
+
 async def _run_rx(case, res):
     kinds = case["kinds"]
     loop = asyncio.get_running_loop()
@@ -227,17 +296,21 @@ async def _run_rx(case, res):
         for j in range(NFUT[k]):
             futs[(i, j)] = loop.create_future()
     root = param.rx(-1)
+    vals = case.get("root_vals") or list(range(len(kinds)))
+    cur = {"i": -1}            # index of the most recent root update: the evaluation it triggers awaits that update's futures
 
     if kinds[0] == "coro":
-        async def pipefn(i):
-            if i < 0:
+        async def pipefn(v):
+            if v < 0:
                 return "init"
+            i = cur["i"]
             return await futs[(i, 0)]
     else:
-        async def pipefn(i):
-            if i < 0:
+        async def pipefn(v):
+            if v < 0:
                 yield "init"
                 return
+            i = cur["i"]
             for j in range(NFUT[kinds[i]]):
                 yield await futs[(i, j)]
 
@@ -250,7 +323,8 @@ async def _run_rx(case, res):
         pass
     for step in case["steps"]:
         if step[0] == "assign":
-            root.rx.value = step[1]
+            cur["i"] = step[1]
+            root.rx.value = vals[step[1]]
             try:
                 expr.rx.value           # reading is what schedules the coroutine
             except Exception:  # noqa: BLE001
@@ -268,6 +342,16 @@ async def _run_rx(case, res):
         got = expr.rx.value
     except Exception as e:  # noqa: BLE001
         got = e
+    by_value = "root_vals" in case
+    if by_value:
+        # judged by value: any complete evaluation for the root's current value is a correct final result
+        o = _owner(got) if isinstance(got, str) else None
+        ok = o is not None and vals[o] == vals[-1] and got == _result(kinds, o)
+        if not ok:
+            res.fail("C10.rx_latest_lost", f"rx pipe, kinds {kinds!r}, root values {vals!r}, steps {case['steps']!r}, "
+                                           f"drain_after_assign={case['drain_after_assign']}: final value {got!r} does not belong to an "
+                                           f"evaluation for the current root value {vals[-1]!r}; watcher saw {seen!r}")
+        return False
     if got != want:
         res.fail("C10.rx_latest_lost", f"rx pipe, kinds {kinds!r}, steps {case['steps']!r}, drain_after_assign={case['drain_after_assign']}: "
                                        f"final value {got!r}, the most recent root update gives {want!r}; watcher saw {seen!r}")
@@ -292,6 +376,8 @@ def execute(case):
     async def main():
         if case["variant"] == "param":
             flags["plain_pending"] = await _run_param(case, res)
+        elif case["variant"] == "linked":
+            flags["plain_pending"] = await _run_linked(case, res)
         else:
             flags["plain_pending"] = await _run_rx(case, res)
         await _drain(4)
@@ -305,6 +391,10 @@ def execute(case):
 
     asyncio.run(main())
     _utils._running_tasks.clear()
+    if case["variant"] == "linked":
+        res.label("variant:linked", "override:" + case["override"])
+        res.nontrivial = True
+        return res
     # completion order vs assignment order
     order = [s[1] for s in case["steps"] if s[0] == "resolve"]
     out_of_order = order != sorted(order)
